@@ -4,12 +4,10 @@ import json, os
 V = os.path.dirname(os.path.dirname(os.path.abspath(__file__)))
 props = [json.loads(l) for l in open(os.path.join(V, 'properties.jsonl'))]
 
-# id -> (technique, level text, level note)
-CLAIMED = {
- 'C01': ('Lean 4 theorems (exact Int picoseconds, exact binary64 on Rat) + generated unit table + differential correspondence',
-         'Proof: 20 theorems about the TimeArray model (SI table regenerated from the source, exact integer storage, nearest-picosecond rounding of the binary64 product, instant-preserving re-wrap/convert, exact operator arithmetic with unit of the left operand, reductions, no wrap below 2^62). The model is tied to the code by the regenerated factor table and by ~4k differential cases per quick run (every operator x operand kind, all 81 unit pairs), including a bit-for-bit validation of the binary64 model against the hardware.',
-         'Trusted: Lean kernel + propext/Classical.choice/Quot.sound; translate.py; the correspondence harness; numpy int64/float64 semantics. The binary64 model itself (rne on Rat) is validated against the hardware bit-for-bit on every run; its relative error bound |rne q - q| <= |q| 2^-53 is proved (rne_near).', '7/C01'),
-}
+# id -> (technique, level text, level note, design ref); kept in harness/claims.py
+import sys
+sys.path.insert(0, os.path.dirname(os.path.abspath(__file__)))
+from claims import CLAIMED, NOT_APPLICABLE
 PENDING = 'check not built yet (work in progress; DESIGN.md section 10 gives the order of work)'
 
 m = {"version": 1, "setup_cmd": "./setup.sh",
@@ -30,6 +28,6 @@ for p in props:
                             "level_claimed": {"category": "proof", "text": text, "design_ref": ref},
                             "level_note": note, "technique": tech})
     else:
-        m['not_applicable'].append({"property_id": i, "reason": PENDING})
+        m['not_applicable'].append({"property_id": i, "reason": NOT_APPLICABLE.get(i, PENDING)})
 json.dump(m, open(os.path.join(V, 'MANIFEST.json'), 'w'), indent=1)
 print('claimed', sorted(CLAIMED))
